@@ -141,6 +141,38 @@ def check_doc(seed):
     return None, text, stats
 
 
+def small_table_text(rng):
+    """a table below 2 x 2 (one row or one column, with or without caption; a cell may hold a short list or a 2 x 2 table)
+    between two paragraphs: such tables may be dissolved, their words and the order of the words stay."""
+    n = [0]
+
+    def w():
+        n[0] += 1
+        return "sw%dq" % n[0]
+
+    rows, cols = rng.choice([(1, 1), (1, 2), (1, 3), (2, 1), (3, 1), (1, 1), (2, 1)])
+    lines = [w(), "", "{|" + rng.choice(["", ' class="wikitable"', ' border="1"'])]
+    if rng.random() < 0.6:
+        lines.append("|+ " + w() + (" " + w() if rng.random() < 0.5 else ""))
+    for r in range(rows):
+        if r or rng.random() < 0.6:
+            lines.append("|-")
+        sep = "!" if r == 0 and rng.random() < 0.3 else "|"
+        if rng.random() < 0.5:
+            lines.append(sep + " " + (" " + sep + sep + " ").join(w() for _ in range(cols)))
+        else:
+            for _ in range(cols):
+                k = rng.random()
+                if k < 0.2:
+                    lines += [sep, "* " + w(), "* " + w()]
+                elif k < 0.3:
+                    lines += [sep, "{|", "| " + w() + " || " + w(), "|-", "| " + w() + " || " + w(), "|}"]
+                else:
+                    lines.append(sep + " " + w())
+    lines += ["|}", "", w(), ""]
+    return "\n".join(lines)
+
+
 def worker(items, extra, progress):
     import logging
 
@@ -154,7 +186,11 @@ def worker(items, extra, progress):
             break
         progress(i)
         try:
-            why, text, stats = check_doc(seed)
+            if isinstance(seed, (tuple, list)):        # ("small", seed): a table below 2 x 2
+                text = small_table_text(random.Random(seed[1]))
+                why, stats = check_text(text), {"small-tables": 1}
+            else:
+                why, text, stats = check_doc(seed)
         except Exception as e:  # noqa: BLE001
             bad.append({"seed": seed, "text": "", "why": f"cleaning pipeline raised {type(e).__name__}: {e}"})
             continue
@@ -264,6 +300,7 @@ def run(chk: common.Check):
     chk.proof_coverage(res, trusted)
     n = 20000 if tier == "thorough" else 2500
     items = [chk.seed * 10_000_000 + 7_000_000 + i for i in range(n)]
+    items += [("small", chk.seed * 10_000_000 + 7_500_000 + i) for i in range(n // 8)]
     r, c = guard.guarded_run(str(chk.mkscratch()), "harness.c07:worker", items, nproc=16, hard_timeout=120,
                              stop_when=lambda r, c: len(c) >= 2 or sum(len(x[0]) for x in r) >= 6)
     bad, hist = [], Counter()
@@ -277,7 +314,8 @@ def run(chk: common.Check):
         "distinct_nontrivial": hist.get("documents", 0),
         "rule": "documents of the C02 grammar: intro blocks + 1-3 sections to depth 3 with body text, paragraphs, nested bullet/numbered "
                 "lists, tables of 2-3 x 2-3 cells (below the 25-row / 15-column / 2500-character heuristics) with optional caption, styled and "
-                "linked text, references, preformatted lines; every visible word unique; no removal trigger. Compared before/after the "
+                "linked text, references, preformatted lines; every visible word unique; no removal trigger; plus tables below 2 x 2 (one row or "
+                "one column, optional caption) between two paragraphs, words and word order only. Compared before/after the "
                 "complete pass sequence: word order, section path, list nesting, reference, cell membership. non-trivial = documents",
         "histogram": dict(hist),
     })
